@@ -102,10 +102,35 @@ def gen_shapes(tier, rng):
         yield mk("pattern/%s" % pat, "@ %s\n" % pat, stdin=PC, timeout=15)
 
 
+def gen_packets(tier, rng):
+    """packet programs on generated frames (truncated and malformed headers included): reading, printing, assigning and
+    writing layers must never crash - whatever the header length fields claim"""
+    from .frames import gen_frame
+    from .C15 import reads
+    from .common import pcap_file as pf
+    n = 150 if tier == "quick" else 3000
+    for c in range(n):
+        fr = [gen_frame(rng, truncate=0.5) for _ in range(rng.randint(1, 2))]
+        pc = pf(fr)
+        acts = [reads(rng, "$1", first=True)]
+        acts.append(" ".join('eprintln("{}", $%d);' % k for k in rng.sample(range(0, 6), rng.randint(1, 4))))
+        if rng.random() < 0.5:
+            k = rng.randint(1, 4)
+            prop, val = rng.choice([("ttl", "1"), ("src", '"1.2.3.4"'), ("srcport", "80"), ("type", "2048"), ("ihl", "15"), ("dataoff", "15"), ("len", "0"), ("totlen", "65535"), ("id", "1"), ("flowlabel", "1")])
+            acts.append("let t = $%d; if !is_error(t) && t != null { t.%s = %s; }" % (k, prop, val))
+        prog = "@ { %s }\n@ true\n@ end { puts(NP); }\n" % " ".join(acts)
+        # a runtime error (e.g. a property the layer does not have) is a fine ending; a crash is not
+        yield mk("pkt/%d" % c, prog, stdin=pc, timeout=15)
+        yield mk("pktfile/%d" % c, 'let ps = pcap_read_all(pcap_open("@TMP@/in.pcap")); let o = pcap_open("@TMP@/o.pcap", "w"); let i = 0; while i < len(ps) { let p = ps[i]; let e = p.eth; puts(p); '
+                 'if !is_error(e) { puts(e); let a = e.ipv4; puts(a); let b = e.ipv6; let v = e.vlan; } pcap_write(o, p); write(stdout, p); i = i + 1; }', files={"in.pcap": pc}, timeout=15)
+
+
 GROUPS = [
     dict(name="C08/builtins-matrix", clause="no builtin panics or hangs for any arity 0..3 and any argument values (negative counts and precisions, huge values, every kind)",
          bound="45 builtins x (arity 0, 22/46 boundary arguments, 6/400 argument pairs, 3/60 triples) plus 42 targeted boundary calls", gen=gen_builtins),
     dict(name="C08/operators-all-kinds", clause="no operator, index, call, property access or map literal panics for any pair of operand kinds", bound="18 binary operators x 20x20 operand kinds (quick 10% sample), 3 unary, index/call/property/map-key on every kind", gen=gen_operators),
+    dict(name="C08/packet-programs", clause="reading, printing, assigning and writing the layers of any frame (truncated or with lying length fields) ends with a result or a reported error",
+         bound="150/3000 seeded frames (50% truncated anywhere) x a filter program (layer chain, $n, Display of $n, one assignment, write) and a file program (pcap_read_all, named layers, pcap_write, write)", gen=gen_packets),
     dict(name="C08/resource-shapes", clause="unbounded recursion, many locals/parameters/elements, 64-deep nesting, long loops, huge containers and failing filter actions/patterns end with a result or a reported error",
          bound="about 80 fixed programs (sizes 200..4000, depths 30..64, loops up to 200000 iterations)", gen=gen_shapes),
 ]
